@@ -185,6 +185,26 @@ def install(it):
         def _cover(it, a, kw):
             it.path.cover(it.ob_prefix + a[0])
 
+        @B('regex_hook')
+        def _regex_hook(it, a, kw):
+            """regex_hook(names, fn): calls of the listed methods on compiled
+            patterns (`pat.sub(...)`) go to fn(pattern, name, args) - the
+            same stand-in a script installs for the module-level re.sub."""
+            names, fn = a
+
+            def hook(it2, pat, name, args, kw2):
+                if name in names:
+                    return it2.call(fn, [pat, name, list(args)], {})
+                return NotImplemented
+            it.regex_hook = hook
+
+        @B('unmodelled')
+        def _unmodelled(it, a, kw):
+            """Called by a model / duck of a contract script when the code
+            under verification asks something the model does not cover: the
+            proof is UNDECIDED on this path, never a violation."""
+            raise Unsupported('model gap: %s' % (a[0] if a else ''))
+
         @B('unreachable')
         def _unreachable(it, a, kw):
             """Obligation that this point is not reachable."""
